@@ -24,4 +24,4 @@ print(' '.join(SURVIVORS))"); do
 done
 wait
 sort $out -o $out
-grep -c 'rc=1' $out; grep -v 'rc=1' $out
+grep -c "rc=1 violations_reported=[1-9]" $out; grep -v "rc=1 violations_reported=[1-9]" $out
